@@ -238,6 +238,9 @@ func (d *Diff) Eq(got, want Val, guard []string, where string) {
 			d.add(guard, "true", where+": another string")
 		}
 	case *Opaque:
+		if gp, isPtr := got.(*PtrV); isPtr && !gp.IsNil() {
+			got = d.X.Load(gp) // a tracked pointer to an opaque number (big.Int): compare the number
+		}
 		g, ok := got.(*Opaque)
 		if !ok || g.Tag != w.Tag || len(g.Args) != len(w.Args) {
 			d.add(guard, "true", where+": made differently ("+fmt.Sprintf("%v", describe(got))+", expected "+describe(want)+")")
